@@ -63,6 +63,18 @@ def main():
                     v = np.concatenate([v, v[:extra]])
                 f[k] = v
         cat = Catalog.from_file(spec["cache"], path, **kw)
+    elif source == "parquet":
+        import pyarrow as pa
+        import pyarrow.parquet as pq
+        path = spec["input_path"].replace(".hdf5", ".pqt")
+        tab = pa.table({k: np.asarray(v) for k, v in cols.items()})
+        sizes = spec.get("row_groups") or [len(tab)]          # row groups of the given (unequal) sizes
+        with pq.ParquetWriter(path, tab.schema) as wr:
+            at = 0
+            for sz in sizes:
+                wr.write_table(tab.slice(at, sz))
+                at += sz
+        cat = Catalog.from_file(spec["cache"], path, **kw)
     else:
         df = pd.DataFrame(cols)
         if spec.get("reader_fault_at") is not None:
